@@ -448,6 +448,9 @@ def verify_scenario(world: World, ct: Contract, sc: Scenario, budget_ms=400, max
                         continue  # merely an allowed outcome
                     path.check(f"{ct.func}/no-raise[{exc}]", z3.Not(clause_truth(ex, cond, renv, fv.mi)),
                                {"kind": "raises-complete", "text": f"normal return implies not ({cond})", "exc": exc})
+                for cid, expr, props in ct.ensures:
+                    path.check(f"{ct.func}/ensures[{cid}]", clause_truth(ex, expr, cenv, fv.mi),
+                               {"kind": "ensures", "text": expr, "props": props})
                 if ct.returns is not None:
                     want = eval_clause(ex, ct.returns, cenv, fv.mi)
                     path.check(f"{ct.func}/returns", zbool(unwrap_bool(value_equal(ex, result, want))),
@@ -457,9 +460,6 @@ def verify_scenario(world: World, ct: Contract, sc: Scenario, budget_ms=400, max
                     want = eval_clause(ex, expr, renv, fv.mi)  # update expressions speak about the entry state
                     path.check(f"{ct.func}/update[{target}]", zbool(unwrap_bool(value_equal(ex, cur, want))),
                                {"kind": "ensures", "text": f"{target} == {expr}"})
-                for cid, expr, props in ct.ensures:
-                    path.check(f"{ct.func}/ensures[{cid}]", clause_truth(ex, expr, cenv, fv.mi),
-                               {"kind": "ensures", "text": expr, "props": props})
             else:
                 pr = raised
                 r.outcome = f"raise:{pr.exc.cls}"
